@@ -213,6 +213,11 @@ func cmdVerify(args []string) int {
 					}
 					fmt.Printf("      model: %s\n", strings.Join(parts, " "))
 				}
+				if os.Getenv("SONICVC_DEBUG") != "" && o.Result != "unsat" {
+					StrDepth = 14
+					fmt.Printf("      GOAL: %s\n      PC: %s\n", o.Goal, o.PC)
+					StrDepth = 6
+				}
 				if o.Result == "error" || o.Result == "unknown" {
 					fmt.Printf("      %s\n", firstLines(o.Output, 3))
 				}
